@@ -190,7 +190,7 @@ func (m *Module) fieldFlows(f *ssa.Function) []flow {
 				}
 				if call, ok := x.Val.(*ssa.Call); ok {
 					// o.F = copyOf(r.G): a helper that builds a fresh map from its argument, entry by entry
-					if g := m.callee(call.Common()); g != nil && m.mapCopyFn(g) {
+					if g := m.callee(call.Common()); g != nil && (m.mapCopyFn(g) || isStdClone(g, "maps")) {
 						src := m.ap(call.Call.Args[0])
 						out = append(out, flow{p.root, strings.Join(append(append([]string{}, p.path...), "{}"), "."), src.extend("{}"), call, x})
 						out = append(out, flow{p.root, strings.Join(append(append([]string{}, p.path...), "{key}"), "."), src.extend("{key}"), call, x})
@@ -309,4 +309,16 @@ func (m *Module) mapCopyFn(g *ssa.Function) bool {
 	}
 	m.mapCopy[g] = updates > 0
 	return updates > 0
+}
+
+// isStdClone: g is (an instance of) maps.Clone / slices.Clone — a fresh shallow copy, nil for nil.
+func isStdClone(g *ssa.Function, pkg string) bool {
+	if g == nil {
+		return false
+	}
+	o := g
+	if g.Origin() != nil {
+		o = g.Origin()
+	}
+	return o.Pkg != nil && o.Pkg.Pkg.Path() == pkg && o.Name() == "Clone"
 }
